@@ -13,11 +13,11 @@ func init() { cmds["C01"] = runC01; cmds["C02"] = runC02 }
 const driftNs = int64(10 * time.Second)
 
 type pairSpec struct {
-	tz, uz         bool
-	tc, uc         int
-	th, uh         uint64
-	tt, ut         int64 // offsets from now, ns
-	tv             uint8
+	tz, uz bool
+	tc, uc int
+	th, uh uint64
+	tt, ut int64 // offsets from now, ns
+	tv     uint8
 }
 
 func mk(zero bool, chain int, h uint64, t int64, vk uint8) *vhdr.Header {
@@ -87,16 +87,16 @@ func runC01(tier string, r *rng) {
 
 // header kinds of the sequence alphabet, relative to the rolling predecessor
 const (
-	kGood = iota // height+1, later time, type-level ok
-	kGap         // height+2
-	kDup         // same height as predecessor
-	kLower       // lower height
-	kZero        // nil header
-	kChain       // other chain id
-	kSoft        // type-level bare soft error
-	kHard        // type-level plain error
-	kPast        // earlier time
-	kFuture      // time beyond now+drift
+	kGood   = iota // height+1, later time, type-level ok
+	kGap           // height+2
+	kDup           // same height as predecessor
+	kLower         // lower height
+	kZero          // nil header
+	kChain         // other chain id
+	kSoft          // type-level bare soft error
+	kHard          // type-level plain error
+	kPast          // earlier time
+	kFuture        // time beyond now+drift
 	nKinds
 )
 
